@@ -79,9 +79,7 @@ def check_tokens(text, obs, oscat):
             rc = ref_linecol(text, start)
             if rc is not None and not in_body:
                 line, cols = rc
-                if "\f" in text[:len(data[:start].decode("utf-8", "ignore"))]:
-                    ff_seen = True
-                if (t[3] != line or t[4] not in cols) and not ff_seen:
+                if (t[3] != line or t[4] not in cols):
                     return ("wrong-line-col", "linecol:%s" % ("line" if t[3] != line else "col"),
                             {"token": t[5][:30], "reported": [t[3], t[4]], "reference_line": line, "reference_cols": cols})
         pos = end
@@ -505,6 +503,16 @@ def run(tier, seed):
                "n_sources": 3000 if tier == "quick" else 100000, "n_units": 200 if tier == "quick" else 5000,
                "faults_per_unit": 12 if tier == "quick" else 30}
     parts = core.run_sharded(shard, payload)
+    # the witnesses of findings (open or fixed) that carry a text are judged again on every run
+    w = core.Result()
+    for f in core.load_findings(PROP):
+        if f.get("witness") and "text" in f["witness"]:
+            ok, msg = replay({"case": {"text": f["witness"]["text"]}})
+            w.evaluations += 1
+            w.count("witness")
+            if not ok:
+                w.violation("witness", "witness:" + f["id"], msg, {"text": f["witness"]["text"], "finding": f["id"]})
+    parts.append(w.to_dict())
     res = core.Result.merge(parts)
     extra = {
         "rule": "generated sources in random spellings (single/multi-line and non-ASCII comments, CRLF, form feed in a "
